@@ -31,3 +31,6 @@ def run(rep: Report, repo: Repo, tier: str) -> None:
     with rep.isolated():
         _fsr.rule_always_regenerates(rep, repo, "C17-R8")
 
+    # the processed set is a function of the set of directory entries, not of their listing order
+    with rep.isolated():
+        _fsr.rule_no_order_dependent_pruning(rep, repo, "C17-R9")
